@@ -23,6 +23,7 @@ fn one(u: &mut Unstructured<'_>) -> TransferCase {
         seed: u.arbitrary::<u8>().unwrap_or(0) as u64,
         verdicts: (0..nv).map(|_| u.arbitrary().unwrap_or(true)).collect(),
         bad_ack: if u.int_in_range(0..=4u8).unwrap_or(0) == 0 { Some((u.int_in_range(0..=2usize).unwrap_or(0), u.int_in_range(0..=3u8).unwrap_or(0))) } else { None },
+        if_needed_hello: if u.int_in_range(0..=3u8).unwrap_or(0) == 0 { Some(u.int_in_range(0..=12u8).unwrap_or(0)) } else { None },
     }
 }
 
